@@ -363,6 +363,8 @@ class DataFormat(object):
             self.item_delimiter = item_delimiter
         elif name == KEY_LINE_DELIMITER:
             try:
+                if value.lower() not in self._VALID_LINE_DELIMITER_TEXTS:
+                    raise KeyError(value)
                 self.line_delimiter = _TEXT_TO_LINE_DELIMITER_MAP[value.lower()]
             except KeyError:
                 raise errors.InterfaceError(
